@@ -151,7 +151,137 @@ def def_idl(d, ind=""):
     raise ValueError(k)
 
 
-def spec_idl(spec): return "".join(def_idl(d) for d in spec)
+def spec_idl_plain(spec): return "".join(def_idl(d) for d in spec)
+
+
+# ---- the same AST in varying concrete syntax ------------------------------------------------------------------------------
+# The grammar is white-space insensitive between tokens (pest's implicit WHITESPACE / COMMENT), except inside the atomic rules
+# (`identifier`, `scoped_name` = "::"? identifier ("::" identifier)*, literals). The printer below emits TOKENS and joins them with
+# separators chosen pseudo-randomly — "", blanks, tabs, line breaks, and (only after `;` `{` `}`) comments — from a seed derived from
+# the AST, so a replay prints the same text. The AST, hence the model's prediction, does not depend on the spelling.
+# Kept tight on purpose: `@name`, a scoped name, and a `>` that directly follows a `>` (see D-gen-29: `>>` after a bound is read as shift).
+
+TIGHT = object()
+
+
+def ty_toks(t):
+    k = t[0]
+    if k == "base": return BASE_TEXT.get(t[1], t[1]).split()
+    if k in ("string", "wstring"): return [k] + (["<", str(t[1]), ">"] if t[1] is not None else [])
+    if k == "seq":
+        inner = ty_toks(t[1])
+        out = ["sequence", "<"] + inner + ([",", str(t[2])] if t[2] is not None else [])
+        if out[-1] == ">":
+            out.append(TIGHT)
+        return out + [">"]
+    if k == "name": return [("::" if t[1] else "") + "::".join(t[2])]
+    raise ValueError(k)
+
+
+def decl_toks(d):
+    out = [d[0]]
+    for n in d[1]:
+        out += ["[", str(n), "]"]
+    return out
+
+
+def ann_toks(x):
+    """`name` or `name:arg` -> `@name` / `@name ( arg )`"""
+    if ":" in x:
+        a, b = x.split(":", 1)
+        return ["@" + a, "(", b, ")"]
+    return ["@" + x]
+
+
+def sann_toks(a): return ["@" + a] if a in ("final", "appendable", "mutable") else ann_toks(a[1])
+
+
+def mann_toks(a):
+    if a == "key": return ["@key"]
+    if a == "optional": return ["@optional"]
+    if a[0] == "id": return ["@id", "(", str(a[1]), ")"]
+    return ann_toks(a[1])
+
+
+def def_toks(d):
+    k = d[0]
+    if k == "module":
+        return ["module", d[1], "{"] + [t for x in d[2] for t in def_toks(x)] + ["}", ";"]
+    if k == "struct":
+        out = [t for a in d[2] for t in sann_toks(a)] + ["struct", d[1], "{"]
+        for anns, t, decls in d[3]:
+            out += [x for a in anns for x in mann_toks(a)] + ty_toks(t)
+            for i, dc in enumerate(decls):
+                out += ([","] if i else []) + decl_toks(dc)
+            out.append(";")
+        return out + ["}", ";"]
+    if k == "enum":
+        out = (["@bit_bound", "(", str(d[2]), ")"] if d[2] is not None else []) + ["enum", d[1], "{"]
+        for i, (n, v) in enumerate(d[3]):
+            out += ([","] if i else []) + (["@value", "(", str(v), ")"] if v is not None else []) + [n]
+        return out + ["}", ";"]
+    if k == "union":
+        out = ["@" + a for a in d[2]] + ["union", d[1], "switch", "("] + BASE_TEXT.get(d[3], d[3]).split() + [")", "{"]
+        for labels, t, decl in d[4]:
+            for l in labels:
+                out += ["default", ":"] if l == "default" else ["case", str(l), ":"]
+            out += ty_toks(t) + decl_toks(decl) + [";"]
+        return out + ["}", ";"]
+    if k == "typedef":
+        out = ["typedef"] + ty_toks(d[1])
+        for i, dc in enumerate(d[2]):
+            out += ([","] if i else []) + decl_toks(dc)
+        return out + [";"]
+    if k == "const":
+        return ["const"] + ty_toks(d[2]) + [d[1], "=", d[3], ";"]
+    raise ValueError(k)
+
+
+def _wordy(c): return c.isalnum() or c in "_\"'."
+
+
+def render_toks(toks, r, mode):
+    """mode 0: one blank between tokens, line break after ; { }  (the plain style); 1: as dense as the grammar allows;
+    2: airy (random blanks, tabs, line breaks everywhere); 3: airy + comments after ; { }"""
+    out = []
+    prev = None
+    tight = False
+    for t in toks:
+        if t is TIGHT:
+            tight = True
+            continue
+        if prev is not None and not tight:
+            # a blank is needed between two words, before `@`, and before an absolute name `::A` after a word (`@key ::A::B x;`
+            # without it reads as the annotation `key::A::B`)
+            need = _wordy(prev[-1]) and (_wordy(t[0]) or t[0] in "@:") or (prev[-1] == ":" and t[0] == ":")
+            if mode == 0:
+                sep = "\n" if prev in (";", "{", "}") else " "
+            elif mode == 1:
+                sep = " " if need else ""
+            else:
+                sep = r.choice(["", " ", " ", "  ", "\t", "\n", "\n    ", " \n "])
+                if need and sep == "":
+                    sep = " "
+                if mode == 3 and prev in (";", "{", "}") and r.chance(1, 3):
+                    sep += r.choice(["/* note */", "// remark\n", "/* multi\n   line */ ", "//\n"])
+                    if sep.endswith("*/") and _wordy(t[0]):
+                        sep += " "
+            out.append(sep)
+        tight = False
+        out.append(t)
+        prev = t
+    return "".join(out) + ("\n" if mode != 1 else "")
+
+
+def spec_idl(spec):
+    """IDL text of a specification; the concrete syntax (white space, line breaks, comments) varies with a seed derived from the AST"""
+    import hashlib
+    from vlib.core import SplitMix64
+    r = SplitMix64(int(hashlib.sha1(spec_sx(spec).encode()).hexdigest()[:15], 16))
+    mode = r.choice([0, 1, 2, 2, 3, 3])
+    toks = [t for d in spec for t in def_toks(d)]
+    return render_toks(toks, r, mode)
+
 
 
 # ------------------------------------------------------------------------------------------ declared structure (IDL semantics)
@@ -623,6 +753,12 @@ def corpus():
                                                                        M([], tb("short"), "c")])])])
     # D-gen-15 (repaired): annotations on a member with several declarators
     out.append([("struct", "Decls", [], [M(["key"], tb("long"), "k1", "k2"), M(["optional"], tb("short"), "o1", "o2")])])
+    # concrete-syntax variants of the same constructs (the printer picks white space / line breaks / comments from a hash of the AST):
+    # annotation parameters with blanks and line breaks inside the parentheses, several annotations, arrays, templates
+    for i, kind in enumerate(["APPENDABLE", "MUTABLE", "FINAL", "APPENDABLE", "MUTABLE", "APPENDABLE"]):
+        out.append([("module", f"Sx{i}", [("struct", f"Spaced{i}", [("o", "extensibility:" + kind), ("o", "nested")],
+                                           [M(["key", ("id", 4 + i)], tseq(tstr(None), 3), "names"), M([("id", 20)], tb("ulonglong"), ("grid", [2])),
+                                            M(["optional"], tb("double"), "opt1", "opt2")])])])
     # D-gen-16 (repaired): the long spelling @extensibility(MUTABLE)
     out.append([("struct", "ExtSpelled", [("o", "extensibility:MUTABLE")], [M([], tb("long"), "a")])])
     # @id in a final struct (C40 D-gen-2)
